@@ -18,7 +18,11 @@ RULE = ("grid: class (18) x entry point (constructor data=, item assignment, sli
         "attempt must raise a TypeError or ValueError subclass; afterwards the in-memory tree (walked through "
         "_data, no loading API) and the resource (read without the library) must contain no forbidden item, "
         "and for single-element operations both must be unchanged. both tiers run the complete grid "
-        "(exhaustive). distinct = grid cell; non-trivial = the entry point was reached "
+        "(exhaustive). Part threaded (E4, JSON classes, unbuffered and inside buffer_backend()): every single-item "
+        "entry point is offered a forbidden item on a node while another thread performs an ordinary write on the "
+        "same node or on the root, under the deterministic line-level scheduler (full delay sweep of both threads): "
+        "in every schedule the call must raise TypeError/ValueError and neither memory nor file may hold the item. "
+        "distinct = grid cell / (program, schedule); non-trivial = the entry point was reached "
         "with the forbidden item.")
 ASSUMPTIONS = [
     "values outside {str,int,float,bool,None,Mapping,non-str Sequence} are 'not JSON-representable'; NaN/inf, "
@@ -165,8 +169,154 @@ def cells(info):
     return out
 
 
+E4_COMBOS = [("JSONDict", None), ("JSONList", None), ("JSONAttrDict", None), ("BufferedJSONList", "ctx"),
+             ("MemoryBufferedJSONDict", "ctx"), ("JSONAttrList", None), ("BufferedJSONDict", None),
+             ("MemoryBufferedJSONList", None)]
+E4_BUDGET = {"quick": 25, "thorough": 900}
+
+
+def threaded_progs(spec):
+    """Part ``threaded``: one thread performs ordinary writes on a tree while another one offers it forbidden data
+    through a single-item entry point (on the same node, on the root or on a child). The shared per-tree state
+    (sync suspension counter, locks) must not decide whether validation happens."""
+    info = catalog.info(spec["cls"])
+    r = gen.rng_for(spec["seed"], "C11-threaded", spec["cls"], spec["mode"])
+    init = copy.deepcopy(D_INIT if info.kind == "dict" else L_INIT)
+    kinds = ["object", "intkey", "complex"] + (["dotkey"] if info.attr else [])
+    targets = (D_TARGETS if info.kind == "dict" else L_TARGETS)[:4]
+    progs = []
+    for tpath in targets:
+        t = init
+        for k in tpath:
+            t = t[k]
+        for kind in kinds:
+            bad = {"$bad": kind}
+            if isinstance(t, dict):
+                entries = [("setitem", ["newk", bad]), ("setdefault", ["newk", bad]),
+                           ("update", ["mapping", {"newk": bad}, None]), ("update", ["kwargs", None, {"newk": bad}]),
+                           ("update", ["pairs", [["newk", bad]], None]), ("reset", [{"newk": bad}])]
+            else:
+                entries = [("append", [bad]), ("insert", [0, bad]), ("extend", [[bad]]), ("iadd", [[bad]]),
+                           ("setitem", [0, bad]), ("setitem", [{"$slice": [0, 1, None]}, [bad]]), ("reset", [[bad]])]
+            for op, args in entries:
+                # the ordinary writer works on the root or on the same node
+                wpath = r.choice([[], tpath])
+                w = init
+                for k in wpath:
+                    w = w[k]
+                if isinstance(w, dict):
+                    wstep = r.choice([{"op": "setitem", "args": ["good", 1]}, {"op": "update", "args": ["mapping", {"g1": 1, "g2": [2]}, None]},
+                                      {"op": "reset", "args": [{"g": {"h": 1}}]}])
+                else:
+                    wstep = r.choice([{"op": "append", "args": ["good"]}, {"op": "extend", "args": [["g1", ["g2"]]]},
+                                      {"op": "reset", "args": [["g", ["h"]]]}, {"op": "setitem", "args": [0, "good"]}])
+                if wstep["op"] == "reset" and wpath != tpath:
+                    wstep = {"op": "setitem", "args": ["good", 1]} if isinstance(w, dict) else {"op": "append", "args": ["good"]}
+                prog = {"cls": info.name, "init": copy.deepcopy(init), "roots": [[0, 0]],
+                        "pre": [{"retain": 10, "h": 0, "path": list(tpath)}, {"retain": 11, "h": 0, "path": list(wpath)}],
+                        "threads": [[{**wstep, "h": 11, "path": []}], [{"op": op, "h": 10, "path": [], "args": args}]]}
+                if spec["mode"] == "ctx":
+                    prog["buffered"] = {"cap": None}
+                progs.append((prog, {"entry": op, "item": kind, "target_depth": len(tpath)}))
+    r.shuffle(progs)
+    if spec["tier"] == "quick":
+        # one program per (entry point, call form); target, item kind and writer vary with the seed
+        seen, sub = set(), []
+        for prog, meta in progs:
+            st = prog["threads"][1][0]
+            k = (st["op"], str(st["args"][0])[:8])
+            if k not in seen:
+                seen.add(k)
+                sub.append((prog, meta))
+        progs = sub
+    return progs, r
+
+
+def run_threaded(spec):
+    import time
+
+    from vf import conc
+
+    boot.boot(lock_shim=True)
+    info = catalog.info(spec["cls"])
+    t0 = time.time()
+    out = {"evaluations": 0, "keys": [], "violations": [], "samples": [], "counters": {}, "strata": {}}
+    c = out["counters"]
+    keys = set()
+    progs, r = threaded_progs(spec)
+    mine = [p for i, p in enumerate(progs) if i % spec["pieces"] == spec["piece"]]
+    for prog, meta in mine:
+        if time.time() - t0 > E4_BUDGET[spec["tier"]]:
+            c["threaded_programs_cut_by_budget"] = c.get("threaded_programs_cut_by_budget", 0) + 1
+            continue
+        runner = conc.ProgramRunner(prog)
+
+        def verdict(prog_, res, ops, final, extra, _runner=runner):
+            for o in ops:
+                if o["t"] != 1:
+                    if o["out"] is not None and o["out"].kind == "exc":
+                        return None  # the ordinary writer failed: the interleaving itself is C13/C14's business
+                    continue
+                if o["out"] is None:
+                    return None
+                if o["out"].kind != "exc":
+                    return ("accepted", f"{o['step']['op']} with a forbidden item returned normally next to a writer")
+                if not isinstance(o["out"].exc, (TypeError, ValueError)):
+                    return ("wrong_exception", f"raised {o['out'].brief()}")
+            mem = forbidden_in(_runner.objs[0], info)
+            if mem:
+                return ("in_memory", f"rejected but memory holds {mem}")
+            got = final[0]
+            if got not in (MISSING, catalog.UNPARSABLE):
+                f = forbidden_in(got, info)
+                if f:
+                    return ("in_resource", f"rejected but the resource holds {f}")
+                if _contains_key(got, "newk"):
+                    return ("in_resource", f"rejected but the resource holds the item's key: {got!r}"[:300])
+            return None
+
+        try:
+            res = conc.explore(prog, runner, r, spec["tier"],
+                               {"cls": info.name, "family": info.family, "part": "threaded", **meta,
+                                "mode": spec["mode"] or "unbuffered"},
+                               policies=("sweep",) if spec["tier"] == "quick" else ("sweep", "boundary", "two_delay"),
+                               deadline=t0 + E4_BUDGET[spec["tier"]] * 1.5, verdict=verdict)
+        finally:
+            runner.close()
+        out["evaluations"] += res["runs"]
+        pk = gen.case_key(prog)
+        for s_ in res["schedules"]:
+            keys.add((pk ^ s_) & (2**63 - 1))
+        c["threaded_runs"] = c.get("threaded_runs", 0) + res["runs"]
+        c["threaded_interleaved_runs"] = c.get("threaded_interleaved_runs", 0) + res["interleaved_runs"]
+        c["threaded_programs"] = c.get("threaded_programs", 0) + 1
+        if res["inconclusive"]:
+            c["inconclusive_runs"] = c.get("inconclusive_runs", 0) + len(res["inconclusive"])
+        st = out["strata"].setdefault("threaded:" + info.family, {"programs": 0, "runs": 0, "violations": 0})
+        st["programs"] += 1
+        st["runs"] += res["runs"]
+        keep = [v for v in res["violations"] if v["sig"]["kind"] in ("accepted", "wrong_exception", "in_memory", "in_resource")]
+        st["violations"] += 1 if keep else 0
+        out["violations"].extend(keep[:1])
+    out["keys"] = sorted(keys)
+    return out
+
+
+def _contains_key(x, key):
+    if isinstance(x, dict):
+        return key in x or any(_contains_key(v, key) for v in x.values())
+    if isinstance(x, list):
+        return any(_contains_key(v, key) for v in x)
+    return False
+
+
 def plan(tier, seed):
     specs = []
+    for cname, mode in E4_COMBOS:
+        pieces = 2 if tier == "quick" else 8
+        for pi in range(pieces):
+            specs.append({"part": "threaded", "cls": cname, "mode": mode, "tier": tier, "seed": seed,
+                          "piece": pi, "pieces": pieces})
     for c in catalog.CLASSES:
         n = len(cells(c))
         pieces = 1 if tier == "quick" else 2
@@ -300,6 +450,8 @@ def attempt(info, cell):
 
 
 def run_shard(spec):
+    if spec.get("part") == "threaded":
+        return run_threaded(spec)
     boot.boot()
     info = catalog.info(spec["cls"])
     out = {"evaluations": 0, "keys": [], "violations": [], "samples": [], "counters": {}, "strata": {}}
@@ -336,6 +488,8 @@ def extra_coverage(tier, merged):
 
 
 def replay(case):
+    if "prog" in case:
+        return []  # threaded part: re-run the check (programs are enumerated, schedules deterministic)
     boot.boot()
     info = catalog.info(case["cls"])
     t, e, k, s = case["cell"]
